@@ -106,8 +106,11 @@ type Play struct {
 	// Sel: chosen disclosure sites (repo path syntax).
 	Sel []string `json:"sel"`
 	// Attack: "" | foreign | foreign-crafted | duplicate | alter-value | alter-name | alter-salt | reencode |
-	// orphan | arity4 | arity1 | garbage | as-element | bad-issuer-sig | dup-digest
+	// orphan | arity4 | arity1 | garbage | as-element | bad-issuer-sig | dup-digest |
+	// pad1 pad2 bits lf cr (another text of the same disclosure instead of it) and the same with "+" (next to it)
 	Attack string `json:"attack,omitempty"`
+	// Victim: index (into the chosen disclosures) of the disclosure an attack works on; -1 or out of range = the last
+	Victim int `json:"victim"`
 	// holder binding
 	HB       string `json:"hb,omitempty"` // "" none | holder | attacker
 	HBNonce  string `json:"hb_nonce,omitempty"`
@@ -205,18 +208,22 @@ func jsonOf(v interface{}) string {
 // ---------- symbolisation ----------
 
 type sym struct {
-	alg     int
-	discIdx map[string]int      // disclosure string -> salt symbol
-	byDig   map[string]string   // digest string -> disclosure string
-	decoys  map[string]int      // unknown digest string -> decoy symbol
-	parsed  map[string]*decoded // disclosure string -> decoded
+	alg      int
+	content  map[string]int      // decoded JSON content (or the raw string when undecodable) -> salt symbol
+	variants map[string]int      // content -> number of distinct texts seen
+	enc      map[string]int      // disclosure string -> text variant (0 = the first text seen of its content)
+	discIdx  map[string]int      // disclosure string -> salt symbol
+	byDig    map[string]string   // digest string -> disclosure string
+	decoys   map[string]int      // unknown digest string -> decoy symbol
+	parsed   map[string]*decoded // disclosure string -> decoded
 }
 
 type decoded struct {
-	e    int
-	salt string
-	name string
-	val  interface{}
+	canon string // compact JSON of the decoded array
+	e     int
+	salt  string
+	name  string
+	val   interface{}
 }
 
 func hashOf(alg int, s string) string {
@@ -255,6 +262,8 @@ func decodeDisc(s string) *decoded {
 		return d
 	}
 
+	cb, _ := json.Marshal(arr)
+	d.canon = string(cb)
 	d.salt = salt
 	d.e = len(arr)
 
@@ -276,7 +285,7 @@ func decodeDisc(s string) *decoded {
 }
 
 func newSym(alg int) *sym {
-	return &sym{alg: alg, discIdx: map[string]int{}, byDig: map[string]string{}, decoys: map[string]int{}, parsed: map[string]*decoded{}}
+	return &sym{alg: alg, content: map[string]int{}, variants: map[string]int{}, enc: map[string]int{}, discIdx: map[string]int{}, byDig: map[string]string{}, decoys: map[string]int{}, parsed: map[string]*decoded{}}
 }
 
 // know registers a disclosure string (issued or crafted).
@@ -285,22 +294,41 @@ func (s *sym) know(d string) {
 		return
 	}
 
-	s.discIdx[d] = len(s.discIdx)
+	pd := decodeDisc(d)
+	s.parsed[d] = pd
+
+	// texts that decode to the same JSON are variants of one disclosure: same salt symbol, another enc
+	key := "raw:" + d
+	if pd.e >= 2 {
+		key = "json:" + pd.canon
+	}
+
+	if _, ok := s.content[key]; !ok {
+		s.content[key] = len(s.content)
+	}
+
+	s.discIdx[d] = s.content[key]
+	s.enc[d] = s.variants[key]
+	s.variants[key]++
 	s.byDig[hashOf(s.alg, d)] = d
-	s.parsed[d] = decodeDisc(d)
 }
 
 func (s *sym) digest(dg string) string {
 	if d, ok := s.byDig[dg]; ok {
 		p := s.parsed[d]
-		return fmt.Sprintf("(VDig %d%%N %d%%N [SIdx %d%%N] %s %s)", s.alg, p.e, s.discIdx[d], hx.CoqString(p.name), s.val(p.val, false))
+		v := "VNull"
+		if p.e == 2 || p.e == 3 {
+			v = s.val(p.val, false)
+		}
+
+		return fmt.Sprintf("(VDig %d%%N %d%%N %d%%N [SIdx %d%%N] %s %s)", s.alg, s.enc[d], p.e, s.discIdx[d], hx.CoqString(p.name), v)
 	}
 
 	if _, ok := s.decoys[dg]; !ok {
 		s.decoys[dg] = len(s.decoys)
 	}
 
-	return fmt.Sprintf("(VDig %d%%N 0%%N [SDecoy %d%%N] \"\" VNull)", s.alg, s.decoys[dg])
+	return fmt.Sprintf("(VDig %d%%N 0%%N 0%%N [SDecoy %d%%N] \"\" VNull)", s.alg, s.decoys[dg])
 }
 
 func (s *sym) disc(d string) string {
@@ -312,7 +340,7 @@ func (s *sym) disc(d string) string {
 		v = s.val(p.val, false)
 	}
 
-	return fmt.Sprintf("{| d_e := %d%%N; d_salt := [SIdx %d%%N]; d_name := %s; d_val := %s |}", p.e, s.discIdx[d], hx.CoqString(p.name), v)
+	return fmt.Sprintf("{| d_enc := %d%%N; d_e := %d%%N; d_salt := [SIdx %d%%N]; d_name := %s; d_val := %s |}", s.enc[d], p.e, s.discIdx[d], hx.CoqString(p.name), v)
 }
 
 func (s *sym) discs(ds []string) string {
@@ -986,6 +1014,36 @@ func reencode(arr []interface{}, style int) string {
 	return base64.RawURLEncoding.EncodeToString(b)
 }
 
+const b64url = "ABCDEFGHIJKLMNOPQRSTUVWXYZabcdefghijklmnopqrstuvwxyz0123456789-_"
+
+// textVariant returns another string for the same disclosure.
+func textVariant(d, kind string) (string, bool) {
+	switch kind {
+	case "pad1":
+		return d + "=", true
+	case "pad2":
+		return d + "==", true
+	case "lf":
+		return d[:len(d)/2] + "\n" + d[len(d)/2:], true
+	case "cr":
+		return d[:1] + "\r" + d[1:], true
+	case "bits":
+		// the last character of a 2- or 3-character tail carries 4 or 2 unused bits
+		if len(d)%4 < 2 {
+			return "", false
+		}
+
+		i := strings.IndexByte(b64url, d[len(d)-1])
+		if i < 0 {
+			return "", false
+		}
+
+		return d[:len(d)-1] + string(b64url[i^1]), true
+	}
+
+	return "", false
+}
+
 func (r *runner) play(sc *Scenario, is *issued, p *Play, dist []string) {
 	o := &sc.Opts
 	one := Scenario{Claims: sc.Claims, Opts: sc.Opts, Plays: []Play{*p}, Note: sc.Note}
@@ -1049,7 +1107,12 @@ func (r *runner) play(sc *Scenario, is *issued, p *Play, dist []string) {
 	var victimStr string
 
 	if len(chosen) > 0 {
-		victimStr = chosen[len(chosen)-1]
+		vi := p.Victim
+		if vi < 0 || vi >= len(chosen) {
+			vi = len(chosen) - 1
+		}
+
+		victimStr = chosen[vi]
 		victim = is.s.parsed[victimStr]
 	}
 
@@ -1114,6 +1177,23 @@ func (r *runner) play(sc *Scenario, is *issued, p *Play, dist []string) {
 			}
 
 			replaceVictim(reencode([]interface{}{victim.salt, victim.val}, 0))
+		}
+	case "pad1", "pad2", "bits", "lf", "cr", "pad1+", "pad2+", "bits+", "lf+", "cr+":
+		// another text of the SAME disclosure (alone = altered string, with "+" next to the original = duplicated):
+		// base64 padding, non-zero trailing bits, embedded LF / CR (Go's decoder skips them)
+		if victim == nil {
+			return
+		}
+
+		variant, ok := textVariant(victimStr, strings.TrimSuffix(p.Attack, "+"))
+		if !ok {
+			return
+		}
+
+		if strings.HasSuffix(p.Attack, "+") {
+			presented = append(presented, variant)
+		} else {
+			replaceVictim(variant)
 		}
 	case "dup-digest":
 		// a dishonest issuer places the digest of a disclosure twice in the payload it signs
@@ -1230,7 +1310,8 @@ func (r *runner) play(sc *Scenario, is *issued, p *Play, dist []string) {
 		label = "honest"
 	}
 
-	class := fmt.Sprintf("verify|%s|%s|%s|n=%d|sel=%d|%v", strings.Join(dist, ","), label, hbLabel, len(is.real()), len(chosen), accepted)
+	class := fmt.Sprintf("verify|%s|%s|%s|vn=%v,va=%v,hn=%s,ha=%s,req=%v|n=%d|sel=%d|%v", strings.Join(dist, ","), label, hbLabel,
+		p.VNonce != "", p.VAud != "", p.HBNonce, p.HBAud, p.Required, len(is.real()), len(chosen), accepted)
 	rec := &hx.Record{Case: one, Class: class, Dist: append([]string{"verify", label, hbLabel}, dist...),
 		Observed: map[string]interface{}{"accepted": accepted, "err": fmt.Sprint(verr), "out": outPlain}}
 
@@ -1490,25 +1571,32 @@ func stripNulls(v interface{}) interface{} {
 var attacks = []string{"foreign", "foreign-crafted", "duplicate", "alter-value", "alter-name", "alter-salt", "reencode", "arity4",
 	"as-element", "arity1", "garbage", "bad-issuer-sig", "dup-digest"}
 
+// hbPlays: {expected nonce set/unset} x {expected audience set/unset} x {binding nonce right/wrong/absent} x
+// {binding audience right/wrong/absent}, required; plus not-required, attacker-key and missing-binding plays.
 func hbPlays(sel []string) []Play {
-	base := Play{Sel: sel}
-	mk := func(f func(p *Play)) Play {
-		p := base
-		f(&p)
+	var out []Play
 
-		return p
+	for _, vn := range []string{"n1", ""} {
+		for _, va := range []string{"aud1", ""} {
+			for _, hn := range []string{"n1", "n2", ""} {
+				for _, ha := range []string{"aud1", "aud2", ""} {
+					out = append(out, Play{Sel: sel, Victim: -1, HB: "holder", HBNonce: hn, HBAud: ha, Required: true, VNonce: vn, VAud: va})
+				}
+			}
+		}
 	}
 
-	return []Play{
-		mk(func(p *Play) { p.Required = true }),
-		mk(func(p *Play) { p.HB, p.HBNonce, p.HBAud, p.Required, p.VNonce, p.VAud = "holder", "n1", "aud1", true, "n1", "aud1" }),
-		mk(func(p *Play) { p.HB, p.HBNonce, p.HBAud, p.Required, p.VNonce, p.VAud = "holder", "n1", "aud1", false, "n1", "aud1" }),
-		mk(func(p *Play) { p.HB, p.HBNonce, p.HBAud, p.Required, p.VNonce, p.VAud = "holder", "n2", "aud1", true, "n1", "aud1" }),
-		mk(func(p *Play) { p.HB, p.HBNonce, p.HBAud, p.Required, p.VNonce, p.VAud = "holder", "n1", "aud2", true, "n1", "aud1" }),
-		mk(func(p *Play) { p.HB, p.HBNonce, p.HBAud, p.Required, p.VNonce, p.VAud = "holder", "", "", true, "n1", "" }),
-		mk(func(p *Play) { p.HB, p.HBNonce, p.HBAud, p.Required, p.VNonce, p.VAud = "attacker", "n1", "aud1", true, "n1", "aud1" }),
-		mk(func(p *Play) { p.HB, p.HBNonce, p.HBAud, p.Required, p.VNonce, p.VAud = "holder", "n9", "aud9", true, "", "" }),
-	}
+	out = append(out,
+		Play{Sel: sel, Victim: -1, Required: true},
+		Play{Sel: sel, Victim: -1, Required: true, VNonce: "n1", VAud: "aud1"},
+		Play{Sel: sel, Victim: -1, HB: "holder", HBNonce: "n1", HBAud: "aud1", VNonce: "n1", VAud: "aud1"},
+		Play{Sel: sel, Victim: -1, HB: "holder", HBNonce: "n1", HBAud: "aud2", VAud: "aud1"},
+		Play{Sel: sel, Victim: -1, HB: "holder", HBNonce: "n2", HBAud: "aud1", VNonce: "n1"},
+		Play{Sel: sel, Victim: -1, HB: "attacker", HBNonce: "n1", HBAud: "aud1", Required: true, VNonce: "n1", VAud: "aud1"},
+		Play{Sel: sel, Victim: -1, HB: "attacker", HBNonce: "n1", HBAud: "aud1"},
+	)
+
+	return out
 }
 
 func corpus(dir string, r *runner) {
@@ -1606,7 +1694,14 @@ func main() {
 		}
 
 		for _, a := range attacks {
-			sc.Plays = append(sc.Plays, Play{Sel: sel, Attack: a})
+			sc.Plays = append(sc.Plays, Play{Sel: sel, Attack: a, Victim: -1})
+		}
+
+		// another text of the same disclosure, for every chosen disclosure (alone and next to the original)
+		for vi := 0; vi < len(sel) && vi < 4; vi++ {
+			for _, a := range []string{"pad1", "pad2", "bits", "lf", "cr", "pad1+", "pad2+", "bits+", "lf+", "cr+"} {
+				sc.Plays = append(sc.Plays, Play{Sel: sel, Attack: a, Victim: vi})
+			}
 		}
 
 		sc.Plays = append(sc.Plays, hbPlays(sel)...)
@@ -1644,7 +1739,7 @@ func main() {
 				}
 			}
 
-			sc.Plays = append(sc.Plays, Play{Sel: sel})
+			sc.Plays = append(sc.Plays, Play{Sel: sel, Victim: -1})
 		}
 
 		(&runner{tr: tr, kind: "random", coq: i%3 == 0}).run(sc)
